@@ -4,7 +4,10 @@
 (* topic.  One action per linearisation point of the code:                 *)
 (*   Start     registerInterestInTopic + precomputeTagsForTopic            *)
 (*   Tick      ticker case of the probing loop: broadcast own view         *)
-(*   Check     intersectedView + the two size tests + broadcast of Query   *)
+(*   Snap      intersectedView, first half: Range over the announced views *)
+(*   Check     intersectedView, second half (own view is computed from the *)
+(*             CURRENT key set, which may have grown since Snap) + the two *)
+(*             size tests + broadcast of Query                             *)
 (*   Recv      HandleMessage (tag -> (topic,id), id = from, dispatch)      *)
 (*   Consume   one receive from tpv.responses in the confirmation loop     *)
 (*   Deadline  ctx.Done() in either loop                                   *)
@@ -32,13 +35,17 @@ VARIABLES ph,    \* [Honest -> {"idle","probing","querying","done","failed"}]
           rq,    \* [Honest -> Seq(view)]        responses channel
           al,    \* [Honest -> Nat]              acknowledgementsLeft
           fin,   \* [Honest -> view]             the list queried / handed to the continuation
+          sv,    \* [Honest -> view | NoSnap | Mixed] what the Range over memberToView saw (between Snap and Check)
           links, \* [<<from, to>> -> Seq(msg)]
           inj, injected,
           hist
 
-vars == <<ph, mv, rs, rq, al, fin, links, inj, injected, hist>>
-view == <<ph, mv, rs, rq, al, fin, links, inj, injected>>
+vars == <<ph, mv, rs, rq, al, fin, sv, links, inj, injected, hist>>
+view == <<ph, mv, rs, rq, al, fin, sv, links, inj, injected>>
 setview == injected
+
+NoSnap == <<-1>>
+Mixed  == <<-2>>
 
 Msg(t, tag, v) == [t |-> t, tag |-> tag, view |-> v]
 
@@ -56,6 +63,7 @@ Init == /\ ph = [m \in Honest |-> "idle"]
         /\ rq = [m \in Honest |-> <<>>]
         /\ al = [m \in Honest |-> 0]
         /\ fin = [m \in Honest |-> <<>>]
+        /\ sv = [m \in Honest |-> NoSnap]
         /\ links = [pr \in Pairs |-> <<>>]
         /\ inj = 0 /\ injected = {} /\ hist = <<>>
 
@@ -63,7 +71,7 @@ Start(m) ==
   /\ m \in Starters /\ ph[m] = "idle"
   /\ ph' = [ph EXCEPT ![m] = "probing"]
   /\ hist' = Append(hist, [e |-> "start", m |-> m])
-  /\ UNCHANGED <<mv, rs, rq, al, fin, links, inj, injected>>
+  /\ UNCHANGED <<mv, rs, rq, al, fin, sv, links, inj, injected>>
 
 \* messages of honest m to every other honest configured member (Byzantine inboxes are not modelled)
 BcastTo(m, msg) == [pr \in Pairs |-> IF pr[1] = m /\ pr[2] \in Honest \ {m} THEN Append(links[pr], msg) ELSE links[pr]]
@@ -76,21 +84,32 @@ Tick(m) ==
   /\ \A q \in Honest \ {m} : ~HasPendingM(m, q)
   /\ links' = BcastTo(m, Msg("M", m, MyView(m)))
   /\ hist' = Append(hist, [e |-> "tick", m |-> m])
-  /\ UNCHANGED <<ph, mv, rs, rq, al, fin, inj, injected>>
+  /\ UNCHANGED <<ph, mv, rs, rq, al, fin, sv, inj, injected>>
 
-\* intersectedView: every announced view and the own view are identical
-Consistent(m) == Peers(m) # {} /\ \A p \in Peers(m) : ViewOf(m, p) = MyView(m)
+\* intersectedView, first half: the Range over memberToView sees one common view, or differing ones, or nothing
+Common(mvm) == IF mvm = {} THEN Mixed
+               ELSE LET v == (CHOOSE e \in mvm : TRUE)[2] IN IF \A e \in mvm : e[2] = v THEN v ELSE Mixed
 
+Snap(m) ==
+  /\ ph[m] = "probing" /\ sv[m] = NoSnap
+  /\ Common(mv[m]) # Mixed          \* a Range that sees differing views leads back to the select: no state change
+  /\ sv' = [sv EXCEPT ![m] = Common(mv[m])]
+  /\ hist' = Append(hist, [e |-> "snap", m |-> m])
+  /\ UNCHANGED <<ph, mv, rs, rq, al, fin, links, inj, injected>>
+
+\* second half: the own view (self + CURRENT keys) joins the set of views; they must all be identical
 Check(m) ==
-  /\ ph[m] = "probing"
-  /\ Consistent(m) /\ Len(MyView(m)) >= E
-  /\ IF Len(MyView(m)) > E
-       THEN /\ ph' = [ph EXCEPT ![m] = "failed"]
-            /\ UNCHANGED <<fin, al, links>>
-       ELSE /\ fin' = [fin EXCEPT ![m] = MyView(m)]
-            /\ al' = [al EXCEPT ![m] = E - 1]
-            /\ ph' = [ph EXCEPT ![m] = IF E - 1 = 0 THEN "done" ELSE "querying"]
-            /\ links' = BcastTo(m, Msg("Q", m, MyView(m)))
+  /\ ph[m] = "probing" /\ sv[m] # NoSnap
+  /\ IF sv[m] = MyView(m) /\ Len(MyView(m)) >= E
+       THEN IF Len(MyView(m)) > E
+              THEN /\ ph' = [ph EXCEPT ![m] = "failed"]
+                   /\ UNCHANGED <<fin, al, links>>
+              ELSE /\ fin' = [fin EXCEPT ![m] = MyView(m)]
+                   /\ al' = [al EXCEPT ![m] = E - 1]
+                   /\ ph' = [ph EXCEPT ![m] = IF E - 1 = 0 THEN "done" ELSE "querying"]
+                   /\ links' = BcastTo(m, Msg("Q", m, MyView(m)))
+       ELSE UNCHANGED <<ph, fin, al, links>>
+  /\ sv' = [sv EXCEPT ![m] = NoSnap]
   /\ hist' = Append(hist, [e |-> "check", m |-> m])
   /\ UNCHANGED <<mv, rs, rq, inj, injected>>
 
@@ -120,7 +139,7 @@ Recv(p, m) ==
   /\ links[<<p, m>>] # <<>>
   /\ ApplyHandle(m, p, Head(links[<<p, m>>]), [links EXCEPT ![<<p, m>>] = Tail(@)])
   /\ hist' = Append(hist, [e |-> "recv", from |-> p, to |-> m])
-  /\ UNCHANGED <<ph, al, fin, inj, injected>>
+  /\ UNCHANGED <<ph, al, fin, sv, inj, injected>>
 
 Consume(m) ==
   /\ ph[m] = "querying" /\ rq[m] # <<>>
@@ -130,13 +149,13 @@ Consume(m) ==
             /\ ph' = [ph EXCEPT ![m] = IF al[m] - 1 = 0 THEN "done" ELSE "querying"]
        ELSE UNCHANGED <<al, ph>>
   /\ hist' = Append(hist, [e |-> "consume", m |-> m])
-  /\ UNCHANGED <<mv, rs, fin, links, inj, injected>>
+  /\ UNCHANGED <<mv, rs, fin, sv, links, inj, injected>>
 
 Deadline(m) ==
   /\ Deadlines /\ ph[m] \in {"probing", "querying"}
   /\ ph' = [ph EXCEPT ![m] = "failed"]
   /\ hist' = Append(hist, [e |-> "deadline", m |-> m])
-  /\ UNCHANGED <<mv, rs, rq, al, fin, links, inj, injected>>
+  /\ UNCHANGED <<mv, rs, rq, al, fin, sv, links, inj, injected>>
 
 Inject(a) ==
   /\ inj < MaxInject /\ inj' = inj + 1
@@ -144,15 +163,15 @@ Inject(a) ==
   /\ injected' = IF Distinct THEN injected \cup {a} ELSE injected
   /\ ApplyHandle(a.to, a.from, Msg(a.t, a.tag, a.view), links)
   /\ hist' = Append(hist, [e |-> "inject", a |-> a])
-  /\ UNCHANGED <<ph, al, fin>>
+  /\ UNCHANGED <<ph, al, fin, sv>>
 
-Next == \/ \E m \in Honest : Start(m) \/ Tick(m) \/ Check(m) \/ Consume(m) \/ Deadline(m)
+Next == \/ \E m \in Honest : Start(m) \/ Tick(m) \/ Snap(m) \/ Check(m) \/ Consume(m) \/ Deadline(m)
         \/ \E pr \in Pairs : pr[1] \in Honest /\ Recv(pr[1], pr[2])
         \/ \E a \in AdvSet : Inject(a)
 
 Spec == Init /\ [][Next]_vars
 FairSpec == Spec /\ WF_vars(Next)
-             /\ \A m \in Honest : WF_vars(Start(m)) /\ WF_vars(Tick(m)) /\ WF_vars(Check(m)) /\ WF_vars(Consume(m))
+             /\ \A m \in Honest : WF_vars(Start(m)) /\ WF_vars(Tick(m)) /\ WF_vars(Snap(m)) /\ WF_vars(Check(m)) /\ WF_vars(Consume(m))
              /\ \A pr \in Pairs : WF_vars(Recv(pr[1], pr[2]))
 
 -----------------------------------------------------------------------------
